@@ -94,7 +94,65 @@ fn wide_partial(width: usize, reverse: bool) {
     };
 }
 
+// ---- a waker whose `clone` runs a one-shot hook: tokio clones the task's waker while it registers it with a channel, i.e. INSIDE
+// poll_next - the hook drops a held FnRef at exactly that moment, which is what a drop from another thread can do
+struct HookW { wakes: std::sync::atomic::AtomicUsize }
+thread_local! { static ON_CLONE: std::cell::RefCell<Option<(usize, Box<dyn FnOnce()>)>> = const { std::cell::RefCell::new(None) }; }
+fn hw_clone(p: *const ()) -> std::task::RawWaker {
+    let fire = ON_CLONE.with(|h| { let mut h = h.borrow_mut(); match h.as_mut() { Some((n, _)) if *n <= 1 => h.take().map(|x| x.1), Some((n, _)) => { *n -= 1; None } None => None } });
+    if let Some(f) = fire { f(); }
+    unsafe { std::sync::Arc::increment_strong_count(p as *const HookW) };
+    std::task::RawWaker::new(p, &HW_VT)
+}
+fn hw_wake(p: *const ()) { let a = unsafe { std::sync::Arc::from_raw(p as *const HookW) }; a.wakes.fetch_add(1, std::sync::atomic::Ordering::SeqCst); }
+fn hw_wake_by_ref(p: *const ()) { let a = unsafe { &*(p as *const HookW) }; a.wakes.fetch_add(1, std::sync::atomic::Ordering::SeqCst); }
+fn hw_drop(p: *const ()) { unsafe { drop(std::sync::Arc::from_raw(p as *const HookW)) }; }
+static HW_VT: std::task::RawWakerVTable = std::task::RawWakerVTable::new(hw_clone, hw_wake, hw_wake_by_ref, hw_drop);
+
+/// roots a(0), b(1); b -> c(2). a and b are taken, a is dropped, and b's FnRef is dropped from inside the n-th waker registration
+/// of the next poll (n = 1, 2): afterwards either a wake-up was signalled or c has been yielded; then the stream must end
+fn drop_inside_poll(nth_clone: usize, reverse: bool) {
+    let mut bld = FnGraphBuilder::new();
+    let ids: Vec<_> = (0..3).map(|i| bld.add_fn(Acc { id: i, reads: vec![], writes: vec![] })).collect();
+    if reverse { bld.add_logic_edge(ids[2], ids[1]).unwrap(); } else { bld.add_logic_edge(ids[1], ids[2]).unwrap(); }
+    // (leaked: the hook that owns an FnRef lives in a thread-local and must be 'static)
+    let g: &'static fn_graph::FnGraph<Acc> = Box::leak(Box::new(bld.build()));
+    let desc = format!("a, b -> c (reverse={reverse}); b's FnRef dropped inside the {nth_clone}. waker registration of a poll");
+    let hw = std::sync::Arc::new(HookW { wakes: std::sync::atomic::AtomicUsize::new(0) });
+    let waker = unsafe { std::task::Waker::from_raw(std::task::RawWaker::new(std::sync::Arc::into_raw(hw.clone()) as *const (), &HW_VT)) };
+    let mut cx = std::task::Context::from_waker(&waker);
+    let opts = if reverse { fn_graph::StreamOpts::new().rev() } else { fn_graph::StreamOpts::new() };
+    let mut s = Box::pin(g.stream_with(opts));
+    let mut held = vec![];
+    loop { match s.poll_next_unpin(&mut cx) { Poll::Ready(Some(r)) => held.push(r), Poll::Ready(None) => viol!("C05", "VIOLATION (C05): {desc}: the stream ended early"), Poll::Pending => break } }
+    if held.len() != 2 { viol!("C05", "VIOLATION (C05): {desc}: {} functions offered before Pending, expected the two without predecessors", held.len()); }
+    let b_pos = held.iter().position(|r| r.id == 1).unwrap();
+    let b = held.remove(b_pos);
+    held.clear(); // a dropped between polls
+    let cell = std::rc::Rc::new(std::cell::RefCell::new(Some(b)));
+    let c2 = cell.clone();
+    ON_CLONE.with(|h| *h.borrow_mut() = Some((nth_clone, Box::new(move || { c2.borrow_mut().take(); }))));
+    let mut yielded_c = false;
+    for _ in 0..4 {
+        let w0 = hw.wakes.load(std::sync::atomic::Ordering::SeqCst);
+        match s.poll_next_unpin(&mut cx) {
+            Poll::Ready(Some(r)) => { if r.id != 2 { viol!("C03", "VIOLATION (C03): {desc}: function {} handed out again", r.id); } yielded_c = true; drop(r); }
+            Poll::Ready(None) => break,
+            Poll::Pending => {
+                // the hook may not have fired yet (fewer registrations in this poll): then b is still held and Pending is right
+                if cell.borrow().is_some() { ON_CLONE.with(|h| *h.borrow_mut() = None); cell.borrow_mut().take(); continue; }
+                if hw.wakes.load(std::sync::atomic::Ordering::SeqCst) == w0 && !yielded_c { viol!("C05", "VIOLATION (C05): {desc}: every predecessor's FnRef is dropped, the stream is Pending and no wake-up was signalled: c is never yielded"); }
+            }
+        }
+    }
+    ON_CLONE.with(|h| *h.borrow_mut() = None);
+    if !yielded_c { viol!("C05", "VIOLATION (C05): {desc}: c was not yielded within four polls although each Pending came with a wake-up"); }
+}
+
 fn main() {
+    for nth in [1usize, 2, 3] { for reverse in [false, true] {
+        if std::panic::catch_unwind(|| drop_inside_poll(nth, reverse)).is_err() && wanted("C04/C05") { println!("VIOLATION (C04/C05): the stream panicked when an FnRef was dropped inside a poll"); std::process::exit(1); }
+    } }
     for width in [3usize, 100, 128, 129, 200, 300, 1000] {
         for reverse in [false, true] {
             if std::panic::catch_unwind(|| wide(width, reverse)).is_err() { println!("VIOLATION (C04/C05): the stream panicked: width {width} reverse={reverse}"); std::process::exit(1); }
